@@ -12,7 +12,7 @@ sys.path.insert(0, os.path.join(ROOT, "harness"))
 from mxh import core, structworld as W          # noqa: E402
 from mxh.mechworld import MechCorr             # noqa: E402
 
-KNOWN_SKIP = os.environ.get("MECH_SKIP_KNOWN", "1") == "1"
+KNOWN_SKIP = os.environ.get("MECH_SKIP_KNOWN", "0") == "1"     # the finding is repaired (8550727)
 NAMES = ["x", "y", "A", "B"]
 SPACES = ["A", "B", "C", "D", "x"]
 
